@@ -41,6 +41,7 @@ inductive Ev
   | tsleep (ms : Nat)
   | tcleanup
   | mt (kind : String) (ok : Bool) (detail : String)
+  | race (what : String)                      -- ThreadSanitizer report (runtime part)
   | skip (why : String)
   deriving Repr, DecidableEq
 
@@ -271,6 +272,7 @@ def render : Ev → String
   | .tsleep ms => s!"tsleep {ms}"
   | .tcleanup => "tcleanup"
   | .mt k ok d => (s!"mt {k} {if ok then "ok" else "bad"} {d}").trimAsciiEnd.toString
+  | .race w => s!"race {w}"
   | .skip w => s!"skip {w}"
 
 end NV.C19
